@@ -267,6 +267,13 @@ def run_scenario(sc):
             mev = (name,)
         else:
             vals = {f: decode(f, v, cache) for f, v in ev["args"].items()}
+            if sc.get("shared_tagset") and isinstance(vals.get("test_tags"), set):
+                # a producer that keeps ONE "current tags" set, changes it between events and passes that very object each time
+                shared = ctx.__dict__.setdefault("shared_tagset", set())
+                shared.clear()
+                shared.update(vals["test_tags"])
+                vals["test_tags"] = shared
+                held[:] = [h for h in held if h[0] is not shared]
             pos = list(itertools.takewhile(vals.__contains__, FIELDS[:ev.get("pos", 0)]))
             name, args = "status", tuple(vals[f] for f in pos)
             kwargs = {f: v for f, v in vals.items() if f not in pos}
@@ -337,7 +344,12 @@ def phase2():
         seqs.append(run(st(test_id="t1", test_status=s1, **opt(test_tags=t1, timestamp=None)),
                         st(1, test_id="t1", test_status=s2, route_code="r", **opt(test_tags=t2, timestamp=[5, 0])),
                         reuse_tags=True))
-    return [dict(s, tree=t) for t in trees for s in seqs]
+    shared = [run(st(test_id="t1", test_status="inprogress", test_tags=["set", ["a"]]),
+                  st(test_id="t1", test_status="success", test_tags=["set", ["a", "b"]]),
+                  st(test_id="t2", test_status="fail", test_tags=["set", ["b"]]),
+                  st(test_id="t3", test_status="skip", test_tags=["set", []]),
+                  st(test_id="t4", test_status="success", test_tags=["set", ["x", "a"]]), shared_tagset=True)]
+    return [dict(s, tree=t) for t in trees for s in seqs + shared]
 
 
 def rand_tree(rng, depth):
@@ -382,7 +394,7 @@ def phase3(rng, prefer, count=8000):
         events = []
         for _run in range(rng.choice([1, 1, 2])):
             events += ["start"] + [rand_event(rng) for _ in range(rng.randint(1, 6))] + ["stop"]
-        yield {"tree": tree, "events": events, "reuse_tags": rng.random() < 0.5}
+        yield {"tree": tree, "events": events, "reuse_tags": rng.random() < 0.5, "shared_tagset": rng.random() < 0.3}
 
 
 def scenarios(prefer):
